@@ -13,9 +13,16 @@ RULE = ("float attributes (1..4 components, 1..12 values, q=1..30) with magnitud
         "with values inside the box; the real AttributeQuantizationTransform output (parameters, quantized integers, "
         "decoded bit patterns) is compared bit for bit with the Float32 instance of the model, and the half-step "
         "bound of the theorem (allowance 14*2^-24*max(|x|,|min|,R), box 16*2^-24) is evaluated in exact rationals "
-        "on the implementation's output; non-trivial = distinct op line with a non-constant attribute")
-THEOREM_BACKED = ("quant_exact_half_step (exact arithmetic), quant_float_half_step (any rounding oracle with unit "
-                  "roundoff u), computeParameters_range, computeParameters_rejects_nan_inf")
+        "on the implementation's output; non-trivial = distinct op line with a non-constant attribute"
+        '; fixed upper-box-corner instances (from 23 bits on the real code quantizes them to k = 2^q; the C04 '
+        'bound still holds); invalid bit counts and NaN / Inf inputs must be rejected on both sides; end to end: '
+        'quantized float attributes through every method (sequential / kd-tree / Edgebreaker), speeds, prediction'
+        ' schemes, built-in compression on/off and skip-transform decodes with RoundTripOK on the '
+        "implementation's outputs, incl. the raw (not entropy coded) storage of quantized values with bit counts "
+        'next to byte boundaries')
+THEOREM_BACKED = ('quant_exact_half_step (exact arithmetic), quant_float_half_step (any rounding oracle with unit roundoff '
+                  'u), quant_float_constant_lower_bound (the constant 14 cannot go below 7.99), computeParameters_range, '
+                  'computeParameters_rejects_nan_inf')
 EXPLANATION = ("the float theorem is about an abstract rounding model; that g++/SSE float32 arithmetic satisfies it is "
                "assumed and sampled by the exact-rational evaluation of the bound on the implementation's outputs")
 ASSUMPTIONS = ["IEEE-754 binary32 round-to-nearest for + - * / and int->float; no FMA contraction (g++ x86-64 SSE)"]
